@@ -22,9 +22,9 @@ func init() {
 		ID:     "C10",
 		Word32: true,
 		Level:  "exploration",
-		Rule: "E1 bounded-exhaustive enumeration: every height h in [0,32] × every length l ≤ min(h,L) × every l-bit prefix: NewPath/PathLen/PathHeight/PathBits/PathMask/PathStr against the prefix as a '0'/'1' string; and every ordered pair of such nodes of equal height: word order == string order (= pre-order: ancestor first, left before right). " +
+		Rule: "E1 bounded-exhaustive enumeration: every height h in [0,32] × every length l ≤ min(h,L) × every l-bit prefix: NewPath/PathLen/PathHeight/PathBits/PathMask/PathStr against the prefix as a '0'/'1' string; and every ordered pair of such nodes of equal height: word order == string order (= pre-order: ancestor first, left before right). Lengths above L (up to 32): every height × every length L < l ≤ h × 9 prefix patterns (zeros, ones, lowest / highest bit only, both alternations, ones but the highest / lowest bit, a fixed constant), same observations, and the order of every pair of these nodes of equal height. " +
 			"A case is one node or one pair; non-trivial when l ≥ 1 (pairs: both non-root and different).",
-		Assumptions: []string{"prefix lengths above L are covered only through C03/C05's tall families"},
+		Assumptions: []string{"prefix lengths above L are covered by 9 patterns per (height, length), not completely"},
 		Run:         c10Run,
 		Judge:       mc.JudgeOf(c10Judge),
 	})
@@ -65,6 +65,7 @@ func c10Want(prefix uint64, l, h int) c10Obs {
 func c10Run(c *mc.Ctx) {
 	L := c.Pick(10, 12)
 	c.Set("max_prefix_length", L)
+	c10Long(c, L)
 	c.Par(33, func(h int) {
 		type node struct {
 			word uint64
@@ -110,6 +111,49 @@ func c10Run(c *mc.Ctx) {
 			n := nodes[len(nodes)/2]
 			c.ForceSample(map[string]interface{}{"height": h, "node": n.str, "word": fmt.Sprintf("%#x", n.word), "pairs_checked": len(nodes)})
 		}
+	})
+}
+
+// c10Long: prefix lengths above L (up to 32), where complete enumeration is out of
+// reach: for every height h and every length L < l ≤ h, a fixed pattern set of l-bit
+// prefixes (all zeros, all ones, lowest / highest bit only, both alternations, all
+// ones but the highest / lowest bit, a fixed constant); all node observations, and
+// the order of every pair of these nodes of equal height.
+func c10Long(c *mc.Ctx, L int) {
+	c.Par(33, func(h int) {
+		type node struct {
+			word uint64
+			str  string
+		}
+		var nodes []node
+		var evals int64
+		for l := L + 1; l <= h; l++ {
+			full := uint64(1)<<uint(l) - 1
+			seen := map[uint64]bool{}
+			for _, pfx := range []uint64{0, full, 1, 1 << uint(l-1), 0x5555555555555555 & full, 0xaaaaaaaaaaaaaaaa & full, full >> 1, full &^ 1, 0x9e3779b97f4a7c15 & full} {
+				if seen[pfx] {
+					continue
+				}
+				seen[pfx] = true
+				got, want := c10Observe(pfx, l, h), c10Want(pfx, l, h)
+				if got != want {
+					c.Fail(2<<50|int64(h)<<40|int64(l)<<32|int64(len(nodes)), "node", "node", c10Case{Height: h, A: want.Str}, fmt.Sprintf("%+v", got), fmt.Sprintf("%+v", want))
+				}
+				evals++
+				nodes = append(nodes, node{got.Word, want.Str})
+			}
+		}
+		for i, a := range nodes {
+			for j, b := range nodes {
+				if (a.word < b.word) != (a.str < b.str) || (a.word == b.word) != (a.str == b.str) {
+					c.Fail(3<<50|int64(h)<<40|int64(i)<<20|int64(j), "order", "order", c10Case{Height: h, A: a.str, B: b.str}, "", "")
+				}
+			}
+			evals += int64(len(nodes))
+		}
+		c.Expect(int64(len(nodes)) + int64(len(nodes))*int64(len(nodes)))
+		c.Count(evals, evals)
+		c.Add("long_prefix_nodes", int64(len(nodes)))
 	})
 }
 
